@@ -106,7 +106,7 @@ def identical(a, b):
         return a is None and b is None
     if a is b:
         return True
-    if isinstance(a, (SList, SDict, SObj, SOpaque, SSet)) or isinstance(b, (SList, SDict, SObj, SOpaque, SSet)):
+    if isinstance(a, (SList, SDict, SObj, SOpaque, SSet, SymList)) or isinstance(b, (SList, SDict, SObj, SOpaque, SSet, SymList)):
         # a snapshot taken for old(...) stands for the object it was copied from
         a0 = getattr(a, 'origin', None) or a
         b0 = getattr(b, 'origin', None) or b
